@@ -342,6 +342,22 @@ def _producer(ctx: Ctx, model, mod: str, fn: str, site: str, fi, ctor: ast.Call,
             Z = "zip(fits.circuits, fits.pseudo_chisqrs)"
             kwc = {k.arg: ast.unparse(k.value) for k in ctor.keywords}
             paired = ast.unparse(pv) == f"each({Z}, 1)" and kwc.get("circuit") == f"each({Z}, 0)" and kwc.get("impedances", "").startswith(f"each({Z}, 0).get_impedances(")
+            if not paired:
+                # the same comparison on resolved values (names bound by the comprehension / by an inlined helper's
+                # parameters): both components must come from one and the same iteration over the zip, i.e. exactly
+                # one enclosing loop or generator iterates over it (two would make a cross product of the two lists)
+                from ..core import parent as _parent
+                iters = 0
+                p_ = _parent(ctor)
+                while p_ is not None and not isinstance(p_, (ast.FunctionDef, ast.AsyncFunctionDef)):
+                    if isinstance(p_, ast.For) and norm(p_.iter) == Z:
+                        iters += 1
+                    if isinstance(p_, (ast.ListComp, ast.GeneratorExp, ast.SetComp, ast.DictComp)):
+                        iters += sum(1 for g in p_.generators if norm(g.iter) == Z)
+                    p_ = _parent(p_)
+                kwn = {k.arg: k.value for k in ctor.keywords}
+                paired = iters == 1 and T(pv) == f"each({Z}, 1)" and "circuit" in kwn and T(kwn["circuit"]) == f"each({Z}, 0)" \
+                    and B.startswith(f"each({Z}, 0).get_impedances(")
         if not paired:
             ctx.violation("R8.1", f"{site}:chisqr-source", mod, pv, f"{site}: pseudo chi-squared {norm(pv)} is not the entry of fits.pseudo_chisqrs paired (zip) with the circuit whose impedances are reported")
             return
